@@ -4,7 +4,7 @@ cd "$(dirname "$0")/.."
 tier=${1:-quick}; shift
 seeds=${@:-0 1 2}
 bad=0
-for c in C01 C02 C03 C04 C05 C06 C07 C08 C09 C10 C11 C12 C13 C14 C15 C16 C17; do
+for c in C01 C02 C03 C04 C05 C06 C07 C08 C09 C10 C11 C12 C13 C14 C15 C16 C17 C18; do
   for s in $seeds; do
     out=$(VERIF_SEED=$s ./vcheck $c --tier $tier 2>&1); rc=$?
     echo "$out" | grep -E 'VIOLATION' ; echo "rc=$rc $(echo "$out" | tail -1)"
